@@ -68,6 +68,60 @@ def multi_dependency_documents(rng, n):
     return docs
 
 
+KIND_ROOTS = ["QMenu", "QWidget", "QAction", "QPushButton", "QVBoxLayout", "QGroupBox", "QLabel"]
+
+
+def homonym_components(ctx, vh, rng):
+    """documents translated before in the same process: each directory has its OWN component `Tools` (a menu here, a widget, an action, a layout there)
+    and a Main.qml using it.  Every Main.qml must come out the same translated alone, after the others and before them (one BuildContext per run)."""
+    import os
+    import shutil
+    os.environ["VERIF_EXTRA_METATYPES"] = ""
+    work = os.path.join(C.BUILD, "c08h")
+    shutil.rmtree(work, ignore_errors=True)
+    cases, meta = [], []
+    for k in range(12 if ctx.tier == "thorough" else 4):
+        root = os.path.join(work, "h%d" % k)
+        kinds = rng.sample(KIND_ROOTS, rng.choice([2, 3]))
+        if k == 0:
+            kinds = ["QMenu", "QWidget"]
+        if k == 1:
+            kinds = ["QAction", "QPushButton"]
+        files = {}
+        for j, q in enumerate(kinds):
+            d = "d%d" % j
+            files[os.path.join(d, "Tools.qml")] = "import qmluic.QtWidgets\n%s {\n}\n" % q
+            files[os.path.join(d, "Main.qml")] = ("import qmluic.QtWidgets\nQWidget {\n    QVBoxLayout {\n        Tools { id: tools }\n        QLabel { text: \"x\" }\n    }\n"
+                                                  "    Tools { id: tools2 }\n}\n")
+        for f, t in files.items():
+            os.makedirs(os.path.dirname(os.path.join(root, f)), exist_ok=True)
+            open(os.path.join(root, f), "w").write(t)
+        mains = ["d%d/Main.qml" % j for j in range(len(kinds))]
+        orders = [[m] for m in mains] + [mains, list(reversed(mains))]
+        for o in orders:
+            cases.append({"root": root, "sources": o, "dirs": []})
+            meta.append((k, tuple(kinds), tuple(o), files))
+        ctx.dist("homonym-components")
+    out = C.harness_run(vh, "project", cases, timeout=300)
+    alone = {}
+    for (k, kinds, o, files), res in zip(meta, out):
+        ctx.count(("homonym", k, kinds, o), len(o) > 1)
+        if not isinstance(res, dict) or "docs" not in res:
+            ctx.violation("translation does not terminate normally on directories with same-named components: %s" % str(res)[:300], {"files": files, "sources": list(o), "impl_output": str(res)[:1000]})
+            continue
+        for d in res["docs"]:
+            rel = os.path.relpath(d["source"], os.path.join(work, "h%d" % k))
+            got = (d.get("ui"), tuple(sorted((x["msg"], x["kind"], x["start"], x["end"]) for x in d.get("diags", []))))
+            if len(o) == 1:
+                alone[(k, rel)] = got
+            elif (k, rel) in alone and got != alone[(k, rel)]:
+                ctx.violation("the output for %s depends on the documents translated before it in the same run (%r): component Tools is a %s here and a different kind in the other directories"
+                              % (rel, list(o), kinds[int(rel[1])]),
+                              {"files": files, "sources": list(o), "impl_output": [alone[(k, rel)][0], got[0]], "oracle_output": alone[(k, rel)][0],
+                               "theorem_or_correspondence": "S: a document's outputs are a function of the document and the types it names"})
+    shutil.rmtree(work, ignore_errors=True)
+
+
 def run(ctx):
     ctx.proof_leg(TARGETS, PINS, k_targets=U.K_TARGETS)
     vh = ctx.need_harness()
@@ -139,6 +193,7 @@ def run(ctx):
     ctx.coverage["nondeterministic_documents"] = nondet
     ctx.coverage["sha256_of_all_outputs"] = hashlib.sha256(repr(sorted((i, by_case[i][0]) for i in by_case)).encode()).hexdigest()
     ctx.sample({"qml": wide[0]})
+    homonym_components(ctx, vh, rng)
     ctx.coverage["rule"] = ("wide generated documents (all catalogue properties per object, all font/geometry members, all handlers, attached bindings; half with 15%% ill-typed "
                             "bindings) in the three modes, the repository's example/test documents and mutants in generate mode; each translated %d times, every round in a "
                             "different order, spread over fresh processes; non-trivial = wide document or at least 2 diagnostics" % reps)
